@@ -34,6 +34,9 @@ Definition rotate {A} (n : N) (l : list A) : list A :=
 Section Alt.
   Variable ffmt : bool -> N -> bytes.
   Variable js : jschema.
+  (** also reorder the members of dictionaries (the reader fills a map; only the struct / union / Maybe member
+      order is covered by the theorems) *)
+  Variable rot_dicts : bool.
 
   Definition num_alt (c : N) (j : json) : json :=
     match j with
@@ -59,39 +62,44 @@ Section Alt.
         [true] are never written, so they imply nothing) *)
     Variable implied : nat -> N.
 
+    (** one field: like [jw_field], with the alternative choices *)
+    Definition jw_field_alt (fd : field) (fi : jfinfo) (idx : nat) (ov : option value) : option (option (json * json)) :=
+      let present := field_present ps all fd in
+      let ci := mix c idx in
+      match ov with
+      | Some v =>
+          if negb present then None else
+          (* a local mask field may drop the bits implied by written members *)
+          let v1 := match v with
+                    | VNum n => if is_nat_type js (f_ty fd)
+                                then VNum (N.land n (N.lnot (N.land (implied idx) (mix ci 7)) 32))
+                                else v
+                    | _ => v
+                    end in
+          let jo := match v with
+                    | VNum _ => if is_nat_type js (f_ty fd) then jw_prim_alt ci PNat v1
+                                else rec ci (f_ty fd) (eval_args ps all (f_args fd)) v
+                    | _ => rec ci (f_ty fd) (eval_args ps all (f_args fd)) v
+                    end in
+          bind_opt jo (fun j =>
+          Some (if jf_bit fi then Some (JStr (jf_name fi), JBool true)
+                else if is_true_type js (f_ty fd) then
+                  (* never written by Go; an explicit {} is accepted for an unmasked one *)
+                  (if negb (is_some (f_mask fd)) && (pick ci 1 4 =? 1) then Some (JStr (jf_name fi), j) else None)
+                else if is_some (f_mask fd) || nonempty js (f_ty fd) v1 then Some (JStr (jf_name fi), j)
+                else if pick ci 1 3 =? 1 then Some (JStr (jf_name fi), j)   (* empty value written explicitly *)
+                else None))
+      | None => if present then None else Some None
+      end.
+
     Fixpoint jw_fields_alt (fds : list field) (fis : list jfinfo) (idx : nat) (vs : list (option value)) {struct vs}
       : option (list (json * json)) :=
       match fds, fis, vs with
       | [], [], [] => Some []
       | fd :: fds', fi :: fis', ov :: vs' =>
-          let present := field_present ps all fd in
-          let ci := mix c idx in
-          match ov with
-          | Some v =>
-              if negb present then None else
-              (* a local mask field may drop the bits implied by written members *)
-              let v1 := match v with
-                        | VNum n => if is_nat_type js (f_ty fd)
-                                    then VNum (N.land n (N.lnot (N.land (implied idx) (mix ci 7)) 32))
-                                    else v
-                        | _ => v
-                        end in
-              let jo := match v with
-                        | VNum _ => if is_nat_type js (f_ty fd) then jw_prim_alt ci PNat v1
-                                    else rec ci (f_ty fd) (eval_args ps all (f_args fd)) v
-                        | _ => rec ci (f_ty fd) (eval_args ps all (f_args fd)) v
-                        end in
-              bind_opt jo (fun j =>
-              bind_opt (jw_fields_alt fds' fis' (S idx) vs') (fun rest =>
-                if jf_bit fi then Some ((JStr (jf_name fi), JBool true) :: rest)
-                else if is_true_type js (f_ty fd) then
-                  (* never written by Go; an explicit {} is accepted for an unmasked one *)
-                  if negb (is_some (f_mask fd)) && (pick ci 1 4 =? 1) then Some ((JStr (jf_name fi), j) :: rest) else Some rest
-                else if is_some (f_mask fd) || nonempty js (f_ty fd) v1 then Some ((JStr (jf_name fi), j) :: rest)
-                else if pick ci 1 3 =? 1 then Some ((JStr (jf_name fi), j) :: rest)   (* empty value written explicitly *)
-                else Some rest))
-          | None => if present then None else jw_fields_alt fds' fis' (S idx) vs'
-          end
+          bind_opt (jw_field_alt fd fi idx ov) (fun om =>
+          bind_opt (jw_fields_alt fds' fis' (S idx) vs') (fun rest =>
+          Some (match om with Some m => m :: rest | None => rest end)))
       | _, _, _ => None
       end.
   End AFields.
@@ -212,7 +220,7 @@ Section Alt.
             match dict_fields js (f_ty ef) with
             | Some (kf, vf) =>
                 if keys_sorted kp es then
-                  option_map (fun ms => JObj (rotate (pick c 2 5) ms))
+                  option_map (fun ms => JObj (if rot_dicts then rotate (pick c 2 5) ms else ms))
                     (jw_entries_alt (fun c' x => jsonw_alt c' (f_ty vf) (eval_args eargs [] (f_args vf)) x) c kp 0 es)
                 else None
             | None => None
